@@ -27,10 +27,10 @@ type ugcSpec struct {
 	Examples  map[string]any      `json:"value_examples"`
 	PassBare  []string            `json:"pass_without_attributes"`
 	Cmd       map[string]struct {
-		Base     string          `json:"base"`
-		Flags    map[string]bool `json:"extra_flags"`
-		Elements []string        `json:"extra_elements"`
-		MustCall []string        `json:"must_call"`
+		Base     string              `json:"base"`
+		Flags    map[string]bool     `json:"extra_flags"`
+		Elements []string            `json:"extra_elements"`
+		MustCall []string            `json:"must_call"`
 		Attrs    map[string][]string `json:"extra_attrs"`
 		Global   []string            `json:"extra_global_attrs"`
 		Schemes  []string            `json:"extra_schemes"`
